@@ -17,6 +17,7 @@ Streams (both layouts: flat_hash.database and flat_hash.md5_cache)
 
 from __future__ import annotations
 
+import math
 import os
 import shutil
 import tempfile
@@ -31,7 +32,9 @@ ANCHORS = ["cache/flat_hash.py::database._getitem", "cache/flat_hash.py::databas
            "cache/flat_hash.py::md5_cache", "cache/__init__.py::base.__setitem__",
            "cache/__init__.py::base.__getitem__", "cache/__init__.py::base.deconstruct_eclasses",
            "cache/__init__.py::base.reconstruct_eclasses", "cache/fs_template.py::FsBased._ensure_access",
-           "cache/fs_template.py::FsBased._ensure_dirs"]
+           "cache/fs_template.py::FsBased._ensure_dirs", "cache/__init__.py::base._mtime_serializer",
+           "cache/__init__.py::base._default_serializer", "cache/__init__.py::base._mtime_deserializer",
+           "cache/__init__.py::base._default_deserializer", "cache/__init__.py::base._eclassdir_serializer"]
 KINDS = {"KeyError": "KeyError", "CacheCorruption": "CacheCorruption"}
 
 META = ["BDEPEND", "DEFINED_PHASES", "DEPEND", "DESCRIPTION", "EAPI", "HOMEPAGE", "IDEPEND", "INHERIT",
@@ -99,7 +102,10 @@ def g_edata(rng, name="x"):
     path = (d + "/" if d not in ("", "/", "//") else d) + name + ".eclass"
     if d == "//":
         path = "//" + name + ".eclass"
-    mt = rng.choice([0, 1, 9, 10, rng.randrange(1 << 31), rng.randrange(1 << 40)])
+    sec = rng.choice([0, 1, 9, 10, 1700000000, rng.randrange(1 << 31), rng.randrange(1 << 40)])
+    # the stamp in milliseconds: os.stat().st_mtime is a float; eighths of a second are exact in
+    # binary floating point, so fractions below, at and above .5 are all produced
+    mt = sec * 1000 + rng.choice([0, 0, 125, 250, 375, 500, 625, 750, 875, 875])
     md = rng.choice([0, 1, 15, 16, rng.randrange(1 << 64), rng.randrange(1 << 128), (1 << 128) - 1])
     return (path, mt, md)
 
@@ -149,7 +155,10 @@ class Impl:
         return c
 
     def obj(self, d):
-        return self.LHP(d[0], mtime=d[1], md5=d[2])
+        ms = d[1]
+        mtime = ms // 1000 if ms % 1000 == 0 and ms % 2000 == 0 else ms / 1000.0    # int or float stamp
+        assert int(mtime * 1000) == ms
+        return self.LHP(d[0], mtime=mtime, md5=d[2])
 
     def values(self, e):
         v = dict(e["kvs"])
@@ -193,10 +202,11 @@ def py_expected(lay, e):
             exp[k] = v.rstrip()
     if e["ecl"] is not None:
         if lay == "flat":
-            exp["_eclasses_"] = [[n, [["eclassdir", os.path.dirname(d[0])], ["mtime", d[1]]]] for n, d in e["ecl"]]
+            exp["_eclasses_"] = [[n, [["eclassdir", os.path.dirname(d[0])], ["mtime", math.floor(d[1] / 1000.0)]]]
+                                 for n, d in e["ecl"]]
         else:
             exp["_eclasses_"] = [[n, [["md5", d[2]]]] for n, d in e["ecl"]]
-    exp["_mtime_" if lay == "flat" else "_md5_"] = e["chf"][1] if lay == "flat" else e["chf"][2]
+    exp["_mtime_" if lay == "flat" else "_md5_"] = math.floor(e["chf"][1] / 1000.0) if lay == "flat" else e["chf"][2]
     return exp
 
 
@@ -307,7 +317,7 @@ def main(chk: Check):
     rng = chk.rng
     chk.rule("random metadata dicts (0-6 known keys + unknown/colliding keys, values with '=', tabs, "
              "non-ASCII and (near-)blank code points at either end, empty/blank values; eclass maps of 0-3 "
-             "eclasses with assorted directories, mtimes up to 2^40, md5 up to 2^128-1; missing _chf_) for "
+             "eclasses with assorted directories, float mtimes up to 2^40 with fractions 0, 1/8 .. 7/8 s, md5 up to 2^128-1; missing _chf_) for "
              "both layouts; parse: the serialised texts plus 13 kinds of mutation (truncation, CR/CRLF, "
              "blank/no-'=' lines, missing/garbage validation value, duplicate keys, eclass arity, blanks); "
              "crash: stores over 6 kinds of pre-existing cache directory (missing location, missing "
